@@ -119,3 +119,36 @@ def long_runs():
             yield "/*" + u * n
             yield "//" + u * n
             yield "a " + u * n + " b\n"
+
+
+# ---------------------------------------------------------------- nested grammar (containers x payloads)
+# characters str.splitlines() treats as line ends although C (and the lexer) does not
+LINEISH = ["\f", "\v", "\r", "\x1c", "\x1e", "\x85", "\u2028", "\u2029"]
+PAYLOAD = (["<:", ":>", "<%", "%>", "%:", "%:%:"] +
+           ["??=", "??/", "??'", "??(", "??)", "??!", "??<", "??>", "??-"] +
+           ["%", ":", ">", "<", "?", "??"] +
+           ["\\", "\\x", "\\x1", "\\x12", "\\0", "\\12", "\\n", "\\q", "\\u12", "\\'", "\\\""] +
+           ["\t", " ", "\n", "\\\n", "??/\n"] +
+           LINEISH[:6] + ["\u00e9", "@"] +
+           ["a", "1", "0x1f", "1.5", "*", "/", "'", "\"", "#"])
+CONTAINERS = ["%s", "/*%s*/", "//%s\n", "\"%s\"", "'%s'", "L\"%s\"", "U'%s'", "u8\"%s", "L'%s", "/*%s", "\"%s", "#define A %s\n",
+              "a %s b\n", "\t%s;\n"]
+
+
+def grammar(maxlen, shard, nshards):
+    """every container filled with every payload sequence of length 1..maxlen, striped over shards"""
+    import itertools
+    k = 0
+    for L in range(1, maxlen + 1):
+        for seq in itertools.product(PAYLOAD, repeat=L):
+            body = "".join(seq)
+            for c in CONTAINERS:
+                k += 1
+                if k % nshards == shard:
+                    yield c % body
+
+
+def grammar_sample(r, n, length):
+    for _ in range(n):
+        body = "".join(r.choice(PAYLOAD) for _ in range(length))
+        yield r.choice(CONTAINERS) % body
